@@ -27,6 +27,15 @@ theorem LInv.setData {s : St} (hs : LInv s) (v d : Nat) :
     LInv ({ s with data := s.data.setIfInBounds v d } : St) :=
   ⟨hs.even, hs.faces, by simpa [nV] using hs.dsz, hs.vsz, hs.edge, hs.anchor⟩
 
+theorem LInv.markFlag {s : St} (hs : LInv s) (e : Nat) : LInv (s.markFlag e) :=
+  ⟨hs.even, hs.faces, hs.dsz, hs.vsz, hs.edge, hs.anchor⟩
+
+theorem LInv.splitFlags {s : St} (hs : LInv s) (b : Bool) (e0 e1 : Nat) : LInv (s.splitFlags b e0 e1) := by
+  unfold St.splitFlags
+  split
+  · exact (hs.markFlag e0).markFlag e1
+  · exact hs
+
 theorem LInv.insertIntoFace {s : St} (hs : LInv s) (f : Nat) (p : Pt) (d : Nat) (h0 : 0 < f) (hf : f < s.nF) :
     LInv (s.insertIntoFace f p d).1 := by
   unfold St.insertIntoFace
@@ -274,7 +283,7 @@ theorem LInv.insertM {s t : St} (hs : LInv s) (p : Pt) (d hint v : Nat)
           rw [hl] at side
           have ht := congrArg Prod.fst (Option.some.inj h)
           change _ = t at ht
-          rw [← ht]; exact hs.splitEdgeOnLine e p d (of_decide_eq_true side) hF
+          rw [← ht]; exact (hs.splitEdgeOnLine e p d (of_decide_eq_true side) hF).splitFlags _ _ _
         · have ht := congrArg Prod.fst (Option.some.inj h)
           change _ = t at ht
           rw [← ht]; exact hs.setData _ _
@@ -307,7 +316,7 @@ theorem LInv.insertM {s t : St} (hs : LInv s) (p : Pt) (d hint v : Nat)
           have ht := congrArg Prod.fst (Option.some.inj h)
           change _ = t at ht
           rw [← ht]
-          exact (hs.insertOnEdge e p d this.1 (Or.inl this.2)).legalizeVertex _
+          exact ((hs.insertOnEdge e p d this.1 (Or.inl this.2)).splitFlags _ _ _).legalizeVertex _
         · rename_i v' hl
           have ht := congrArg Prod.fst (Option.some.inj h)
           change _ = t at ht
